@@ -53,6 +53,9 @@ class PostgresImpl(SqlImpl):
                 )
 
             def int_type_range(dtype: Int) -> tuple[int, int]:
+                dtype = types.without_const(dtype)
+                if type(dtype) is Int:
+                    dtype = Int64()
                 is_signed = dtype.__class__.__name__[0] == "I"
                 bits = int(dtype.__class__.__name__[4 - is_signed :])
 
